@@ -137,6 +137,8 @@ PY_FNS = {
     # evaluates to a plain 1-D numpy array (not a Series)
     "arr": ("np.asarray({0}, dtype=float)", "np.asarray({0}, dtype=float)", 1),
     "stack": ("np.stack([{0}, {1}], axis=1)", "np.stack([{0}, {1}], axis=1)", 2),
+    # not row-wise, and it *creates* a missing value (first row); only used where no reference encoding is needed (C07)
+    "lag": ("lag({0})", "lag({0})", 1),
 }
 
 
